@@ -1,2 +1,3 @@
 pub mod actors;
+pub mod seg;
 pub mod spec;
